@@ -1975,7 +1975,10 @@ pub fn vh_macmc(a: &Args) {
 pub fn vh_nbwalk(a: &Args) {
     let depth = a.get_usize("depth", if a.thorough { 5 } else { 4 });
     let regions: Vec<String> = a.get("regions").unwrap_or(if a.thorough { "EU868,US915" } else { "EU868" }).split(',').map(|s| s.to_string()).collect();
-    let alpha = ["send", "send_txing", "join", "txdone", "timeout", "timeout_fault", "rx_valid", "rx_junk", "rx_oversize", "noise0", "noise2", "rx_ja"];
+    // (the last three only occur in sequences generated from the specification: seqs=)
+    let alpha_all = ["send", "send_txing", "join", "txdone", "timeout", "timeout_fault", "rx_valid", "rx_junk", "rx_oversize", "noise0", "noise2", "rx_ja",
+                     "send_err", "setdr_lo", "setdr_hi"];
+    let alpha = &alpha_all[..if a.get("seqs").is_some() { 15 } else { 12 }];
     // canonical prefixes that bring the state machine into each of its states (Idle; transmitting; waiting for
     // RX1; receiving in RX1; waiting for RX2; receiving in RX2 - for a data uplink and for a join request), then
     // every sequence of `depth - 2` (at least 2) events of the alphabet
@@ -2010,6 +2013,15 @@ pub fn vh_nbwalk(a: &Args) {
             seqs.push(v);
         }
     }
+    // seqs=FILE: the event sequences come from the specification instead (MCNb.tla: one sequence per transition of
+    // the design-level model of the state machine; one JSON array of event names per line)
+    if let Some(f) = a.get("seqs") {
+        let text = std::fs::read_to_string(f).expect("seqs file");
+        seqs = text.lines().filter(|l| !l.trim().is_empty()).map(|l| {
+            let v: Vec<String> = serde_json::from_str(l).expect("sequence of event names");
+            v.iter().map(|n| alpha.iter().position(|x| x == n).unwrap_or_else(|| panic!("unknown nb event {n}"))).collect()
+        }).collect();
+    }
     let mut out = crate::cli::Shards::create(&a.out, "mac", a.shards);
     let key = [1u8; 16];
     let addr = [1u8, 2, 3, 4];
@@ -2032,6 +2044,9 @@ pub fn vh_nbwalk(a: &Args) {
                 match name {
                     "send" => mk("send", "done", None),
                     "send_txing" => mk("send", "txing", None),
+                    "send_err" => mk("send", "err", None),
+                    "setdr_lo" => Some(Op::SetDr { dr: 0 }),
+                    "setdr_hi" => Some(Op::SetDr { dr: 3 }),
                     "join" => mk("join", "done", None),
                     "rx_valid" | "rx_junk" => {
                         let (nwk, app, ad) = view.keys.unwrap_or((key, key, addr));
